@@ -539,4 +539,12 @@ Proof.
   rewrite H, app_nil_r. apply rev_involutive.
 Qed.
 
+Theorem visits_spec : forall t m root uf n, wf_tree t -> wf_groups (m_groups m) ->
+  (In n (visits t m root uf true) <->
+   In n t /\ (exists r, r <> [] /\ n_path n = root ++ r) /\ matches_node m (n_path n) (dsel uf n) (length root) = true).
+Proof. intros t m root uf n Ht Hm. rewrite visits_vlist. now apply vlist_spec. Qed.
+
+Theorem visits_nodup : forall t m root uf, wf_tree t -> NoDup (visits t m root uf true).
+Proof. intros t m root uf Ht. rewrite visits_vlist. now apply vlist_nodup. Qed.
+
 End Top.
